@@ -313,6 +313,8 @@ def check_route_totality(idx: Index, rep: Report):
                reason=f"route predicate differs on {len(sv_ok)} configuration(s), e.g. {sv_ok[0] if sv_ok else ''}")
     check_complex_split(idx, rep, rule)
     check_sympy_expectation(idx, rep)
+    from . import C01 as _C01
+    _C01.check_cirq_initial_state(idx, rep)          # expectation values from shots start from the user's initial state on every cirq path
 
 
 class _NpComplex:
